@@ -47,9 +47,9 @@ func scratchRoot() string {
 type slot struct {
 	open    bool
 	initApp bool // created while the head was uninitialised
-	v1   storage.Appender
-	v2   storage.AppenderV2
-	m    *tsdbmodel.App
+	v1      storage.Appender
+	v2      storage.AppenderV2
+	m       *tsdbmodel.App
 }
 
 type image struct {
@@ -151,9 +151,9 @@ func (h *hookT) set(e *exec) {
 	h.e = e
 	h.mu.Unlock()
 }
-func (h *hookT) Yield(string, ...int)  {}
-func (h *hookT) Acquire(string, bool)  {}
-func (h *hookT) Release(string, bool)  {}
+func (h *hookT) Yield(string, ...int) {}
+func (h *hookT) Acquire(string, bool) {}
+func (h *hookT) Release(string, bool) {}
 func (h *hookT) Event(name string, kv ...any) {
 	if e := h.cur(); e != nil {
 		e.onEvent(name, kv...)
@@ -1032,6 +1032,14 @@ func (e *exec) doAdd(o Op) {
 			}
 		}
 	}
+	if e.prop == "C52" && e.cfg.KF != TagGaugeOOOMixed && e.curOOO > 0 && (v.Kind != tsdbmodel.KFloat || v.IsStale()) {
+		// Known finding (C52): an out-of-order head chunk holding several sample types is m-mapped as several
+		// chunks but was counted once, so the chunks gauge under-reports after their garbage collection. While
+		// the out-of-order window is open, ordinary C52 runs therefore append plain floats only (any sample can
+		// end up in the out-of-order chunk at commit time); histogram gauges are exercised with the window closed.
+		e.res.Count("skipped:"+TagGaugeOOOMixed, 1)
+		return
+	}
 	if e.cfg.KF != tsdbmodel.TagReplayOrder {
 		// Known finding: an in-order sample older than an out-of-order sample of the same series that is already
 		// in the WAL is dropped at replay (replay takes the out-of-order sample for the in-order one).
@@ -1183,8 +1191,9 @@ func (e *exec) doCommit(i int) {
 
 // Known-finding tags (see known_findings.json).
 const (
-	TagOrphan       = "wal-sample-before-series-record"
-	TagStaleReorder = "stale-marker-commit-reorder"
+	TagOrphan        = "wal-sample-before-series-record"
+	TagStaleReorder  = "stale-marker-commit-reorder"
+	TagGaugeOOOMixed = "head-chunks-gauge-miscounts-mixed-type-ooo-chunks"
 )
 
 // creatorDone: the appender in slot i logged its series records (commit and rollback both do).
@@ -1734,6 +1743,5 @@ func (e *exec) adoptCrash(ci *image, lower, upper *tsdbmodel.Model) {
 		e.now = e.db.Head().MaxTime()
 	}
 }
-
 
 func (e *exec) finalChecks() {}
